@@ -34,7 +34,9 @@ Apply(s, a, b) ==   \* -> [v, bad]
     [] s = "/" -> (IF b = 0 THEN [v |-> 0, bad |-> "div0"] ELSE [v |-> Div(a, b), bad |-> ""])
     [] s = "+" -> [v |-> a + b, bad |-> ""]
     [] s = "-" -> [v |-> a - b, bad |-> ""]
-    [] s = "<<" -> (IF b < 0 \/ b > 15 \/ a < 0 THEN [v |-> 0, bad |-> "undef"] ELSE [v |-> a * (2 ^ b), bad |-> ""])
+    [] s = "<<" -> (IF b < 0 \/ b > 15 \/ a < 0 THEN [v |-> 0, bad |-> "undef"]
+                   ELSE IF b > 0 /\ a >= 2 ^ (31 - b) THEN [v |-> 0, bad |-> "overflow"]        \* the result does not fit 32 bits: an error is required
+                   ELSE [v |-> a * (2 ^ b), bad |-> ""])
     [] s = ">>" -> (IF b < 0 \/ b > 15 \/ a < 0 THEN [v |-> 0, bad |-> "undef"] ELSE [v |-> a \div (2 ^ b), bad |-> ""])
     [] s = "<" -> [v |-> B(a < b), bad |-> ""] [] s = "<=" -> [v |-> B(a <= b), bad |-> ""]
     [] s = ">" -> [v |-> B(a > b), bad |-> ""] [] s = ">=" -> [v |-> B(a >= b), bad |-> ""]
@@ -97,6 +99,7 @@ ASSUME Eval(<<N(0), O("?"), N(1), O(":"), N(0), O("?"), N(2), O(":"), N(3)>>).v 
 ASSUME Eval(<<N(1), O("?"), N(0), O("?"), N(5), O(":"), N(6), O(":"), N(7)>>).v = 6
 ASSUME Eval(<<N(1), O("||"), N(0), O("&&"), N(0)>>).v = 1
 ASSUME Eval(<<N(5), O("/"), N(0)>>).bad = "div0"
+ASSUME Eval(<<N(65536), O("<<"), N(15)>>).bad = "overflow" /\ Eval(<<N(65535), O("<<"), N(15)>>).v = 2147450880
 ASSUME Eval(<<N(0), O("&&"), N(1), O("/"), N(0)>>).bad = "undef" /\ Eval(<<N(1), O("&&"), N(1), O("/"), N(0)>>).bad = "div0"
 ASSUME Eval(<<N(1), O("?"), N(2), O(":"), N(1), O("/"), N(0)>>).bad = "undef"
 ASSUME Eval(<<O("("), N(1), O("+"), N(2), O(")"), O("*"), N(3)>>).v = 9
